@@ -1,0 +1,8 @@
+//go:build verif
+
+package renderer
+
+// Exports for the verification harness (/verif, property C10). Compiled only with -tags verif.
+
+func VerifZigzagEncode32(value int) uint32 { return zigzagEncode(value) }
+func VerifZigzagDecode32(value uint32) int { return zigzagDecode(value) }
